@@ -137,7 +137,8 @@ func (p *Parser) ReadPeek() {
 			// Skip Fastly pgrama embedded data
 			for {
 				t = p.tk.NextToken()
-				if t.Type == token.SEMICOLON {
+				// an unterminated pragma ends at the end of the input
+				if t.Type == token.SEMICOLON || t.Type == token.EOF {
 					break
 				}
 			}
